@@ -87,7 +87,7 @@ CLAIMED.update({
 CLAIMED.update({
  "C17": ("instr-sim", "deterministic simulation: a corpus of twin functions (plain / #[instrument]) generated at build time from a seed and compiled with the real attribute macro; seeded drives with tracked arguments under a recording, absent or filtering collector; async twins polled by a seeded executor (interleaved, migrated between threads, cancelled, panicking); twin-equality and span-protocol oracles",
          "Seeded exploration over a generated corpus (sync / async / async-trait-style boxed futures / methods; by-value, by-reference, destructured, generic and impl-Trait arguments; unit / value / Result / impl Display returns with early return, `?` and panic; name, level, target, parent, skip, fields, ret/err modes and levels): the instrumented twin must return the same value, panic with the same payload, produce the same effect log and clone/drop its arguments the same number of times as the plain twin; each call creates exactly one span with the configured name/level/parent and exactly the non-skipped arguments and extra fields; every body step (each poll) observes that span as current and the executor between polls does not; enter/exit balance and a single close; ret/err events inside the span with the value and level configured. Thorough explores four corpora. Sampling, not proof.",
-         "Trusts: the corpus generator (sim/tsim/build.rs) and the expectation tables it emits next to each pair; `skip_all` is not implemented by this tree (finding F22) and pairs using it run only in the finding-probe configuration.", "DESIGN.md 5 C17"),
+         "Trusts: the corpus generator (sim/tsim/build.rs) and the expectation tables it emits next to each pair.", "DESIGN.md 5 C17"),
 })
 
 NOT_BUILT = {
